@@ -339,6 +339,7 @@ type irBind struct {
 	body       ir
 }
 type irPanic struct{}
+type irReject struct{} // the Go function returned a non-nil error
 type irRet struct {
 	writes []string
 	outs   []string
@@ -350,7 +351,7 @@ func irImpure(x ir) bool {
 		return irImpure(n.body)
 	case irIf:
 		return irImpure(n.then) || irImpure(n.els)
-	case irGuard, irBind, irPanic:
+	case irGuard, irBind, irPanic, irReject:
 		return true
 	}
 	return false
@@ -399,8 +400,10 @@ type fnSig struct {
 	written       []string // receiver fields assigned (sorted)
 	hasStores     bool
 	result        *gtype
-	resultBool    bool   // the function returns bool (Lean: Bool)
-	resultIndex   string // the function returns &recv.<field>[i]: the value is the (bounds-checked) index i
+	resultBool    bool     // the function returns bool (Lean: Bool)
+	resultIndex   string   // the function returns &recv.<field>[i]: the value is the (bounds-checked) index i
+	resultStruct  string   // the function returns (S, error): S a struct of this package with integer fields only
+	resultFields  []string // its fields, alphabetical
 	impure        bool
 	body          ir
 	file          string
@@ -435,24 +438,27 @@ func (e *env) copy() *env {
 }
 
 type fnTrans struct {
-	c           *pkgCtx
-	fd          *ast.FuncDecl
-	key         string
-	recvVar     string
-	recvType    string
-	recvPtr     bool
-	fields      map[string]ast.Expr
-	recvUse     map[string]recvParam // key kind+":"+field
-	written     map[string]bool
-	extConsts   map[string]bool
-	extFuncs    map[string]bool
-	pending     []pend
-	nfresh      int
-	storeParam  string
-	result      *gtype
-	resultBool  bool
-	resultIndex string
-	leanNames   map[string]bool
+	c            *pkgCtx
+	fd           *ast.FuncDecl
+	key          string
+	recvVar      string
+	recvType     string
+	recvPtr      bool
+	fields       map[string]ast.Expr
+	recvUse      map[string]recvParam // key kind+":"+field
+	written      map[string]bool
+	extConsts    map[string]bool
+	extFuncs     map[string]bool
+	pending      []pend
+	nfresh       int
+	storeParam   string
+	result       *gtype
+	resultBool   bool
+	resultIndex  string
+	resultStruct string
+	resultFields []string
+	resultFTypes map[string]*gtype
+	leanNames    map[string]bool
 }
 
 var leanReserved = map[string]bool{"at": true, "end": true, "from": true, "fun": true, "do": true, "then": true, "open": true,
@@ -615,14 +621,43 @@ func (c *pkgCtx) translate(key string) *fnSig {
 	}
 	// result
 	if r := fd.Type.Results; r != nil && len(r.List) > 0 {
-		if len(r.List) != 1 || len(r.List[0].Names) > 1 {
+		if len(r.List) == 2 && len(r.List[0].Names) == 0 && len(r.List[1].Names) == 0 {
+			// (S, error) with S a struct of this package whose fields are all integers: `Res (fields…)`,
+			// `Res.reject` when the error is non-nil (the struct value returned beside an error is not reported)
+			sid, ok1 := r.List[0].Type.(*ast.Ident)
+			eid, ok2 := r.List[1].Type.(*ast.Ident)
+			if ok1 && ok2 && eid.Name == "error" {
+				if st, ok := c.types[sid.Name].(*ast.StructType); ok {
+					t.resultStruct = sid.Name
+					t.resultFTypes = map[string]*gtype{}
+					for _, f := range st.Fields.List {
+						g := c.resolveType(f.Type, 0)
+						if g == nil || len(f.Names) == 0 {
+							fail("result struct %s has a non-integer or embedded field", sid.Name)
+						}
+						for _, n := range f.Names {
+							t.resultFields = append(t.resultFields, n.Name)
+							t.resultFTypes[n.Name] = g
+						}
+					}
+					sort.Strings(t.resultFields)
+				}
+			}
+		}
+		if t.resultStruct != "" {
+			// handled in ReturnStmt
+		} else if len(r.List) != 1 || len(r.List[0].Names) > 1 {
 			fail("more than one result")
 		}
 		if len(r.List[0].Names) == 1 {
 			fail("named result")
 		}
-		t.result = c.resolveType(r.List[0].Type, 0)
-		if id, ok := r.List[0].Type.(*ast.Ident); ok && id.Name == "bool" && t.result == nil {
+		if t.resultStruct == "" {
+			t.result = c.resolveType(r.List[0].Type, 0)
+		}
+		if t.resultStruct != "" {
+			// nothing more to resolve
+		} else if id, ok := r.List[0].Type.(*ast.Ident); ok && id.Name == "bool" && t.result == nil {
 			t.resultBool = true
 		} else if _, ok := r.List[0].Type.(*ast.StarExpr); ok && t.result == nil {
 			// a pointer result is accepted only as `&recv.field[i]` (see ReturnStmt): the value is the index
@@ -638,7 +673,8 @@ func (c *pkgCtx) translate(key string) *fnSig {
 		fail("translation too large (%d nodes): too many branches are duplicated", n)
 	}
 	sig.body = body
-	sig.impure = irImpure(body)
+	sig.impure = irImpure(body) || t.resultStruct != ""
+	sig.resultStruct, sig.resultFields = t.resultStruct, t.resultFields
 	sig.result = t.result
 	sig.resultBool = t.resultBool
 	sig.resultIndex = t.resultIndex
@@ -723,11 +759,26 @@ func (t *fnTrans) useRecv(kind, field string) recvParam {
 		return rp
 	}
 	ft, ok := t.fields[field]
+	if outer, sub, nested := strings.Cut(field, "."); nested {
+		// recv.Outer.Sub with Outer a field whose type is a struct of this package
+		ok = false
+		if oid, isId := t.fields[outer].(*ast.Ident); isId {
+			if st, isSt := t.c.types[oid.Name].(*ast.StructType); isSt {
+				for _, f := range st.Fields.List {
+					for _, n := range f.Names {
+						if n.Name == sub {
+							ft, ok = f.Type, true
+						}
+					}
+				}
+			}
+		}
+	}
 	if !ok {
 		fail("receiver has no field %s (embedded fields and methods values are outside the subset)", field)
 	}
 	rp := recvParam{field: field, kind: kind}
-	base := t.leanIdent(t.recvVar) + "_" + field
+	base := t.leanIdent(t.recvVar) + "_" + strings.ReplaceAll(field, ".", "_")
 	switch kind {
 	case "field":
 		g := t.c.resolveType(ft, 0)
@@ -904,6 +955,13 @@ func (t *fnTrans) expr(e ast.Expr, en *env) val {
 	case *ast.SelectorExpr:
 		if t.isRecv(x.X) {
 			rp := t.useRecv("field", x.Sel.Name)
+			if rp.isBool {
+				return val{lean: "(" + rp.lean + " = true)", isBool: true}
+			}
+			return val{lean: rp.lean, typ: rp.typ}
+		}
+		if in, ok := x.X.(*ast.SelectorExpr); ok && t.isRecv(in.X) {
+			rp := t.useRecv("field", in.Sel.Name+"."+x.Sel.Name)
 			if rp.isBool {
 				return val{lean: "(" + rp.lean + " = true)", isBool: true}
 			}
@@ -1180,7 +1238,7 @@ func (t *fnTrans) localCall(key string, onRecv bool, args []ast.Expr, en *env) v
 		fail("call of %s, which assigns receiver fields or stores into a slice, inside an expression", key)
 	}
 	if cs.result == nil && !cs.resultBool {
-		fail("call of %s, which returns nothing, inside an expression", key)
+		fail("call of %s, which returns nothing or a struct, inside an expression", key)
 	}
 	if len(cs.recvParams) > 0 && (!onRecv || cs.recvType != t.recvType) {
 		fail("call of method %s on something other than the caller's own receiver", key)
@@ -1394,7 +1452,7 @@ var assignOps = map[token.Token]token.Token{token.ADD_ASSIGN: token.ADD, token.S
 
 func (t *fnTrans) stmts(list []ast.Stmt, en *env) ir {
 	if len(list) == 0 {
-		if t.result != nil || t.resultBool {
+		if t.result != nil || t.resultBool || t.resultStruct != "" {
 			fail("control reaches the end of a function that returns a value")
 		}
 		return t.finish(en, nil)
@@ -1407,6 +1465,9 @@ func (t *fnTrans) stmts(list []ast.Stmt, en *env) ir {
 	case *ast.BlockStmt:
 		return t.stmts(append(append([]ast.Stmt(nil), x.List...), rest...), en)
 	case *ast.ReturnStmt:
+		if t.resultStruct != "" {
+			return t.returnStruct(x, en, mark)
+		}
 		if t.result == nil && !t.resultBool {
 			if len(x.Results) != 0 {
 				fail("return with a value in a function without result")
@@ -1543,6 +1604,64 @@ func (t *fnTrans) stmts(list []ast.Stmt, en *env) ir {
 	}
 	fail("statement of kind %T is outside the subset", s)
 	return nil
+}
+
+// returnStruct: `return S{F: e, …}, nil` / `return recv, nil` / `return <anything>, errors.New(…)|fmt.Errorf(…)`
+func (t *fnTrans) returnStruct(x *ast.ReturnStmt, en *env, mark int) ir {
+	if len(x.Results) != 2 {
+		fail("return arity")
+	}
+	switch e := x.Results[1].(type) {
+	case *ast.Ident:
+		if e.Name != "nil" || en.vars["nil"] != nil {
+			fail("error result that is neither nil nor errors.New / fmt.Errorf")
+		}
+	case *ast.CallExpr:
+		k, ok := selKey(e.Fun)
+		if !ok || (k != "errors.New" && k != "fmt.Errorf") || !t.isImportAlias(strings.SplitN(k, ".", 2)[0], en) {
+			fail("error result that is neither nil nor errors.New / fmt.Errorf")
+		}
+		return irReject{} // errors.New / fmt.Errorf never return nil; their arguments are not evaluated here
+	default:
+		fail("error result that is neither nil nor errors.New / fmt.Errorf")
+	}
+	vals := map[string]string{}
+	switch v := x.Results[0].(type) {
+	case *ast.CompositeLit:
+		id, ok := v.Type.(*ast.Ident)
+		if !ok || id.Name != t.resultStruct {
+			fail("composite literal of another type")
+		}
+		for _, f := range t.resultFields {
+			vals[f] = "0"
+		}
+		for _, el := range v.Elts {
+			kv, ok := el.(*ast.KeyValueExpr)
+			if !ok {
+				fail("composite literal without field names")
+			}
+			kid, ok := kv.Key.(*ast.Ident)
+			if !ok || t.resultFTypes[kid.Name] == nil {
+				fail("composite literal key")
+			}
+			vals[kid.Name] = t.coerce(t.intExpr(kv.Value, en), t.resultFTypes[kid.Name], "field "+kid.Name).lean
+		}
+	case *ast.Ident:
+		if !t.isRecv(v) || t.recvType != t.resultStruct {
+			fail("struct result that is neither a composite literal nor the receiver")
+		}
+		for _, f := range t.resultFields {
+			vals[f] = t.useRecv("field", f).lean
+		}
+	default:
+		fail("struct result that is neither a composite literal nor the receiver")
+	}
+	ps := t.take(mark)
+	r := irRet{writes: append([]string(nil), en.writes...)}
+	for _, f := range t.resultFields {
+		r.outs = append(r.outs, vals[f])
+	}
+	return wrapPend(ps, r)
 }
 
 // returnIndex: `return &recv.field[i]` (value: the index i, after Go's bounds check against len(recv.field)),
@@ -1711,6 +1830,8 @@ func (s *fnSig) print(b *strings.Builder, x ir, ind string) {
 		s.print(b, n.body, ind)
 	case irPanic:
 		fmt.Fprintf(b, "%sRes.panic\n", ind)
+	case irReject:
+		fmt.Fprintf(b, "%sRes.reject\n", ind)
 	case irRet:
 		fmt.Fprintf(b, "%s%s\n", ind, s.retString(n))
 	}
@@ -1729,6 +1850,9 @@ func (s *fnSig) outType() string {
 	}
 	if s.resultBool {
 		parts = append(parts, "Bool")
+	}
+	for range s.resultFields {
+		parts = append(parts, "Int")
 	}
 	ty := "Unit"
 	if len(parts) > 0 {
@@ -1794,6 +1918,9 @@ func (s *fnSig) emit(b *strings.Builder, c *pkgCtx) {
 	}
 	if s.resultBool {
 		outs = append(outs, "result, bool")
+	}
+	if s.resultStruct != "" {
+		outs = append(outs, "result ("+s.resultStruct+", error): the fields "+strings.Join(s.resultFields, ", ")+" (alphabetical) when the error is nil, `Res.reject` when it is not")
 	}
 	if len(outs) == 0 {
 		outs = []string{"nothing"}
